@@ -616,7 +616,7 @@ def run(ctx, objdir):
         if k is not None:
             ecases.append(k)
             ctx.case(key=("e2e-fixed", "os._exit", lib), tags=["e2e:fixed-os._exit", "e2e:lib:" + lib])
-    nprog = ctx.n(6, 55)
+    nprog = ctx.n(6, 48)
     for pi in range(nprog):
         prog = gen_program(rng)
         w.write(prog)
